@@ -12,12 +12,13 @@ Reference note: alternate set-point codes decode with +12 over the whole 13..43 
 −19 branch serves set-points below 13 °C and is self-inconsistent at 38; documented in DESIGN.md).
 """
 from __future__ import annotations
+import ast
 
 from fractions import Fraction
 
 from ..bits import Bits, BitEval, LinV, NeedSplit, Pred, Region, Top, eval_regions
 from ..facts import call_is, strip
-from ..model import AnalysisError
+from ..model import norm, AnalysisError
 from ..reference import lua_keyb, lua_text
 from ..terms import is_const, show, summarize
 
@@ -257,6 +258,38 @@ def run(ctx):
     # and apply (C20.e; the CLI is one of the public ways to request a state)
     from . import c20
     ctx.import_rules(c20, "t20", only=("C20.e",))
+    # ---- C10.g the command is a snapshot of the attributes as they were when apply() was called: between entry and the last read into the
+    # SetStateCommand there is no suspension point.  An await before the command is complete (pending properties sent first, a refresh, a lock
+    # that is held) lets _update_state - fed by the responses of that exchange or by a concurrent refresh - overwrite the requested values,
+    # and the control command then encodes the unit's old state.
+    from ..atomic import sections, simple
+    ap_ = ctx.fn("msmart.device.AC.device.AirConditioner.apply")
+    cmd_names = set()
+
+    def _constructs(n):
+        return any(isinstance(c, ast.Call) and isinstance(c.func, (ast.Name, ast.Attribute)) and
+                   (c.func.id if isinstance(c.func, ast.Name) else c.func.attr) == "SetStateCommand" for c in ast.walk(n))
+    from ..helpers import with_helpers as _wh
+    for f_ in _wh(prog, ap_):
+        for n in ast.walk(f_.node):
+            if isinstance(n, ast.Assign) and _constructs(n.value):
+                cmd_names |= {t.id for t in n.targets if isinstance(t, ast.Name)}
+
+    def _fills(n):
+        if not simple(n):
+            return False
+        if _constructs(n):
+            return True
+        tg = n.targets if isinstance(n, ast.Assign) else ([n.target] if isinstance(n, (ast.AugAssign, ast.AnnAssign)) else [])
+        return any(isinstance(t, ast.Attribute) and isinstance(t.value, ast.Name) and t.value.id in cmd_names for t in tg)
+    sec = sections(prog, ap_, None, _fills, from_entry=True)
+    ctx.count("snapshot_statements", len(sec))
+    for n_, dirty in sec.items():
+        ctx.ob("C10.g", ap_.qual, not dirty, "the control command is filled from the attributes before apply() first suspends (a snapshot of the requested state)",
+               func=ap_.qual, file=ap_.module.rel, node=n_, detail={"suspension_points": dirty},
+               fail=f"`{norm(n_)[:50]}` reads the requested state only after `{dirty[0] if dirty else ''}`: responses processed during that await (an unsolicited state "
+                    "report, a concurrent refresh) overwrite the attributes first, and the command encodes the unit's old state instead of the requested one")
+    ctx.require_min("snapshot_statements", 1)
     from ._chains import transparent_deprecated
     transparent_deprecated(ctx, "C10.f")          # (the old setting names are the same setters)
     ctx.require_min("body_bytes", 24)
